@@ -386,6 +386,40 @@ let c12 (rest : string) : string =
     | _ -> "" in
   Buffer.add_string buf ("# " ^ fin); Buffer.contents buf
 
+(* ---------- C17: heartbeat and idle deadline over virtual time ---------- *)
+let c17 (rest : string) : string =
+  match split_on rest '|' with
+  | [hd; script] ->
+      let l = (match words hd with ["L"; v] -> opt_n v | _ -> failwith "c17: bad header") in
+      let evs = split_on script ';' in
+      let buf = Buffer.create 256 in
+      Buffer.add_string buf ("adv=" ^ (match Timers.advertised l with None -> "-" | Some v -> str_n v) ^ " ; ");
+      let tres_str = function Timers.TOk -> "ok" | Timers.TRemoteClosed -> "RemoteClosed" | Timers.TIdleTimeout -> "IdleTimeout" in
+      let s = Stdlib.List.fold_left (fun s e ->
+        let (st, dt) = match words e with
+          | ["w"; d] -> (Timers.SNone, d) | ["po"; r; d] -> (Timers.SPeerOpen (opt_n r), d)
+          | ["pz"; d] -> (Timers.SPeerEmpty, d) | ["pc"; d] -> (Timers.SPeerClose, d)
+          | ["close"; d] -> (Timers.SClose, d) | ["closee"; d] -> (Timers.SCloseErr, d)
+          | _ -> failwith ("c17: bad event " ^ e) in
+        let (s', o) = Timers.tstep s (st, n_of_string dt) in
+        let wire = Stdlib.List.filter_map (function
+          | Timers.OEmpty t -> Some ("Z@" ^ str_n t) | Timers.OClose (t, false) -> Some ("C@" ^ str_n t)
+          | Timers.OClose (t, true) -> Some ("Ce@" ^ str_n t) | _ -> None) o in
+        let dones = Stdlib.List.filter_map (function
+          | Timers.OOpenDone true -> Some "open=ok" | Timers.OOpenDone false -> Some "open=err"
+          | Timers.OCloseDone r -> Some ("close=" ^ tres_str r) | Timers.OOutOfScope -> Some "OUT-OF-SCOPE" | _ -> None) o in
+        let eof = Stdlib.List.filter_map (function Timers.OEof t -> Some ("EOF@" ^ str_n t) | _ -> None) o in
+        Buffer.add_string buf (Stdlib.String.concat " " ([Stdlib.String.concat "," wire] @ dones @ eof));
+        Buffer.add_string buf " ; "; s') (Timers.tinit l) evs in
+      let fin = match s.Timers.phase with
+        | Timers.PWaitOpen -> "open=PENDING"
+        | Timers.POpened -> "running"
+        | Timers.PCloseSent | Timers.PDiscard -> "close=PENDING"
+        | Timers.PStopped (r, false) -> "stopped=" ^ tres_str r
+        | _ -> "" in
+      Buffer.add_string buf ("# " ^ fin); Buffer.contents buf
+  | _ -> failwith "c17: expected `L v | script`"
+
 let dispatch (line : string) : string =
   match Stdlib.String.index_opt line ' ' with
   | None -> failwith "no model tag"
@@ -397,6 +431,7 @@ let dispatch (line : string) : string =
        | "c08" -> c08 rest
        | "c02" -> c02 rest
        | "c12" -> c12 rest
+       | "c17" -> c17 rest
        | "lnk" -> c11_lnk rest
        | "chn" -> c11_chn rest
        | "xfer" -> frame_xfer rest
